@@ -1084,6 +1084,16 @@ func (e *Evaluator) evalRules(rules []*Rule) error {
 	return nil
 }
 
+// run a BEGIN, END, BEGINFILE or ENDFILE rule. there's no record to skip in
+// these, so next just finishes the rule
+func (e *Evaluator) evalSpecialRule(rule *Rule) error {
+	err := e.evalStatement(rule.Body)
+	if err == errNext {
+		return nil
+	}
+	return err
+}
+
 func (e *Evaluator) evalPatternRules(patternRules []*Rule) error {
 	if e.root == nil {
 		return nil
@@ -1162,7 +1172,7 @@ func EvalProgram(progSrc string, files []InputFile, rootSelectors []string, stdo
 	// begin rules
 	for _, rule := range ev.beginRules {
 		ev.ruleRoot = NewCell(NewValue(nil))
-		if err := ev.evalStatement(rule.Body); err != nil {
+		if err := ev.evalSpecialRule(rule); err != nil {
 			if err == errExit {
 				return &ev, nil
 			}
@@ -1208,7 +1218,7 @@ func EvalProgram(progSrc string, files []InputFile, rootSelectors []string, stdo
 				// run the begin file rules
 				for _, rule := range ev.beginFileRules {
 					ev.ruleRoot = rootCell
-					if err := ev.evalStatement(rule.Body); err != nil {
+					if err := ev.evalSpecialRule(rule); err != nil {
 						if err == errExit {
 							return &ev, nil
 						}
@@ -1228,7 +1238,7 @@ func EvalProgram(progSrc string, files []InputFile, rootSelectors []string, stdo
 				// run the end file rules
 				for _, rule := range ev.endFileRules {
 					ev.ruleRoot = NewCell(rootVal)
-					if err := ev.evalStatement(rule.Body); err != nil {
+					if err := ev.evalSpecialRule(rule); err != nil {
 						if err == errExit {
 							return &ev, nil
 						}
@@ -1242,7 +1252,7 @@ func EvalProgram(progSrc string, files []InputFile, rootSelectors []string, stdo
 	// end rules
 	for _, rule := range ev.endRules {
 		ev.ruleRoot = NewCell(NewValue(nil))
-		if err := ev.evalStatement(rule.Body); err != nil {
+		if err := ev.evalSpecialRule(rule); err != nil {
 			if err == errExit {
 				return &ev, nil
 			}
